@@ -20,7 +20,23 @@ specfun("om_orders_wf", ["m"], "forall(lambda k=Id: implies(k in m._orders._item
 specfun("om_holds_dom", ["m"], "forall(lambda k=Id: implies(k in m._holds_by_order, (k in m._orders._items) and st_open(m._orders._items[k])))")
 specfun("om_holds_nonneg", ["m"], "forall(lambda k=Id, s=Str: implies(k in m._holds_by_order, at(m._holds_by_order[k], s) >= 0)) "
                                   "and forall(lambda k=Id: implies(k in m._holds_by_order, nonempty(m._holds_by_order[k])))")
-# every reservation is covered by the account's holds (consequence of holds == sum of reservations + collateral)
+# C06: what is on hold is exactly the sum of the reservations of the open orders (lending is collateral-free, see
+# registry: Loan.no_collateral).  hsum is a finite sum over the keys of _holds_by_order (axioms AX-SUM-*).
+specfun("hsum", ["m", "s"], "msum(dom(m._holds_by_order), lambda k=Id: at(m._holds_by_order[k], s))")
+specfun("om_holds_sum", ["m"], "forall(lambda s=Str: at(om_acc(m).holds, s) == hsum(m, s))")
+# axiom instances: a reservation is bounded by the sum (all reservations are >= 0)
+specfun("ax_hold_bound", ["m", "k"], "forall(lambda s=Str: sum_axiom_bound(dom(m._holds_by_order), lambda j=Id: at(m._holds_by_order[j], s), k))")
+# axiom instances relating the sum before and after a call that touches at most the entry of key k
+specfun("ax_hold_step", ["m", "k"],
+        "forall(lambda s=Str: sum_axiom_update(old(dom(m._holds_by_order)), lambda j=Id: old(at(m._holds_by_order[j], s)), "
+        "                                      dom(m._holds_by_order), lambda j=Id: at(m._holds_by_order[j], s), k) "
+        "                 and sum_axiom_remove(old(dom(m._holds_by_order)), lambda j=Id: old(at(m._holds_by_order[j], s)), "
+        "                                      dom(m._holds_by_order), lambda j=Id: at(m._holds_by_order[j], s), k) "
+        "                 and sum_axiom_insert(old(dom(m._holds_by_order)), lambda j=Id: old(at(m._holds_by_order[j], s)), "
+        "                                      dom(m._holds_by_order), lambda j=Id: at(m._holds_by_order[j], s), k) "
+        "                 and sum_axiom_eq(old(dom(m._holds_by_order)), lambda j=Id: old(at(m._holds_by_order[j], s)), "
+        "                                  dom(m._holds_by_order), lambda j=Id: at(m._holds_by_order[j], s)))")
+specfun("holds_gap_same", ["m"], "forall(lambda s=Str: at(om_acc(m).holds, s) - hsum(m, s) == old(at(om_acc(m).holds, s) - hsum(m, s)))")
 specfun("om_holds_cover", ["m"], "forall(lambda k=Id, s=Str: implies(k in m._holds_by_order, at(m._holds_by_order[k], s) <= at(om_acc(m).holds, s)))")
 specfun("om_ctx_wf", ["m"], "om_shared(m) and fee_wf(m._ctx.fee_strategy) and cfg_all_symbols(om_cfg(m))")
 specfun("om_inv", ["m"], "om_ctx_wf(m) and lm_inv(om_lm(m)) and om_orders_wf(m) and om_holds_dom(m) and om_holds_nonneg(m)")
@@ -96,7 +112,10 @@ contract(OM + "_update_balances", props=P, types={"balance_updates": "Dict[Str,R
                              "forall(lambda s=Str: at(om_acc(self).holds, s) == old(at(om_acc(self).holds, s)) - old(at(oh_of(self, order), s))) "
                              "and not (order._id in self._holds_by_order) "
                              "and forall(lambda k=Id: implies(k != order._id, (k in self._holds_by_order) == old(k in self._holds_by_order))))"),
-                  ("others", "forall(lambda k=Id: implies(k != order._id and (k in self._holds_by_order), same_object(self._holds_by_order[k], old(self._holds_by_order[k]))))")],
+                  ("others", "forall(lambda k=Id: implies(k != order._id and (k in self._holds_by_order), same_object(self._holds_by_order[k], old(self._holds_by_order[k]))))"),
+                  # the account's holds and the sum of the reservations move together (C06)
+                  ("holds_gap", "holds_gap_same(self)")],
+         axioms=[("sum_step", "ax_hold_step(self, order._id)")],
          raises={"Error": [("account", "unchanged(om_acc(self))"),
                            ("holds", "content_unchanged(self._holds_by_order) and implies(order._id in self._holds_by_order, content_unchanged(oh_of(self, order)))"),
                            # releasing the hold of a closed order (no balance change) is never refused, provided the
@@ -188,7 +207,7 @@ contract(OM + "_borrow", props=["C07", "C10", "C02", "C01"], types={"required_ba
                   ("holds_same", "forall(lambda s=Str: at(om_acc(self).holds, s) == old(at(om_acc(self).holds, s)))"),
                   ("existing_loans", "old_loans_kept(self)")],
          # a failed borrow leaves no loan behind: every loan created in this call has been cancelled again
-         raises={"BaseException": BORROW_LM + [
+         raises={"Error": BORROW_LM + [
                                    ("account", "forall(lambda s=Str: at(om_acc(self).balances, s) == old(at(om_acc(self).balances, s)) "
                                                "and at(om_acc(self).holds, s) == old(at(om_acc(self).holds, s)) "
                                                "and at(om_acc(self).borrowed, s) == old(at(om_acc(self).borrowed, s)))"),
@@ -206,12 +225,13 @@ contract(OM + "_borrow", props=["C07", "C10", "C02", "C01"], types={"required_ba
 # ---------------------------------------------------------------------------------------------------------------------
 contract(OM + "_repay_loans", props=["C11", "C01", "C02"],
          requires=[("ctx", "om_ctx_wf(self)"), ("lm", "lm_inv(om_lm(self))"), ("clock", "clock_ok(om_lm(self))"),
+                   ("collateral_free", "om_lm(self)._lending_strategy.no_collateral"),
                    ("clock2", "forall(lambda k=Id: implies(k in om_lm(self)._loans._items, now_of(om_lm(self)) >= om_lm(self)._loans._items[k]._created_at))")],
          ensures=BORROW_LM + [
                   # only interest leaves the account: totals change exactly by what the ledger records (C01)
                   ("ledger", "forall(lambda s=Str: (at(om_acc(self).balances, s) - at(om_acc(self).borrowed, s)) - old(at(om_acc(self).balances, s) - at(om_acc(self).borrowed, s)) "
                              "== GHOST.ledger[s] - old(GHOST.ledger[s]))"),
-                  ("holds_shrink", "forall(lambda s=Str: at(om_acc(self).holds, s) <= old(at(om_acc(self).holds, s)))"),
+                  ("holds_same", "forall(lambda s=Str: at(om_acc(self).holds, s) == old(at(om_acc(self).holds, s)))"),
                   ("loans_only_close", "forall(lambda k=Id: ((k in om_lm(self)._loans._items) == old(k in om_lm(self)._loans._items)) "
                                        "and implies(k in om_lm(self)._loans._items, same_object(om_lm(self)._loans._items[k], old(om_lm(self)._loans._items[k])) "
                                        "and implies(om_lm(self)._loans._items[k]._is_open, old(om_lm(self)._loans._items[k]._is_open))))")],
@@ -225,8 +245,8 @@ contract(OM + "_repay_loans", props=["C11", "C01", "C02"],
 specfun("holds_total_eq", ["m"], "TRUE")
 contract(OM + "_order_closed", props=P + ["C11"],
          requires=[("ctx", "om_ctx_wf(self)"), ("lm", "lm_inv(om_lm(self))"), ("closed", "not st_open(order)"), ("order", "order_wf(order)"),
-                   ("holds", "implies(order._id in self._holds_by_order, forall(lambda s=Str: at(oh_of(self, order), s) >= 0 and at(oh_of(self, order), s) <= at(om_acc(self).holds, s)) "
-                             "and nonempty(oh_of(self, order)))"),
+                   ("collateral_free", "om_lm(self)._lending_strategy.no_collateral"),
+                   ("holds_nonneg", "om_holds_nonneg(self)"), ("holds_sum", "om_holds_sum(self)"),
                    ("clock", "implies(order._auto_repay and filled(order) != 0, clock_ok(om_lm(self)) and "
                              "forall(lambda k=Id: implies(k in om_lm(self)._loans._items, now_of(om_lm(self)) >= om_lm(self)._loans._items[k]._created_at)))")],
          ensures=BORROW_LM + [
@@ -234,9 +254,12 @@ contract(OM + "_order_closed", props=P + ["C11"],
                   ("released", "not (order._id in self._holds_by_order) "
                                "and forall(lambda k=Id: implies(k != order._id, ((k in self._holds_by_order) == old(k in self._holds_by_order)) "
                                "and implies(k in self._holds_by_order, same_object(self._holds_by_order[k], old(self._holds_by_order[k])))))"),
-                  ("holds", "forall(lambda s=Str: at(om_acc(self).holds, s) <= old(at(om_acc(self).holds, s)) - (old(at(oh_of(self, order), s)) if old(order._id in self._holds_by_order) else 0))"),
+                  ("holds", "forall(lambda s=Str: at(om_acc(self).holds, s) == old(at(om_acc(self).holds, s)) - (old(at(oh_of(self, order), s)) if old(order._id in self._holds_by_order) else 0))"),
+                  ("holds_nonneg", "om_holds_nonneg(self)"), ("holds_sum", "om_holds_sum(self)"),
                   ("ledger", "forall(lambda s=Str: (at(om_acc(self).balances, s) - at(om_acc(self).borrowed, s)) - old(at(om_acc(self).balances, s) - at(om_acc(self).borrowed, s)) "
                              "== GHOST.ledger[s] - old(GHOST.ledger[s]))")],
+         axioms=[("bound", "ax_hold_bound(self, order._id)"), ("step", "ax_hold_step(self, order._id)")],
+         hints=[("cover", "implies(order._id in self._holds_by_order, forall(lambda s=Str: at(oh_of(self, order), s) <= at(om_acc(self).holds, s)))")],
          # statement-derived: closing an order never fails ("released in full when the order closes for any reason")
          raises={},
          modifies=ACC3 + ["content(self._holds_by_order)", "content(self._holds_by_order[order._id])",
@@ -250,7 +273,7 @@ specfun("in_orders", ["m", "o"], "(o._id in m._orders._items) and same_object(m.
 specfun("fok", ["o"], "typeis(o, 'MarketOrder') or typeis(o, 'StopOrder')")
 PO_REQ = [("ctx", "om_ctx_wf(self)"), ("lm", "lm_inv(om_lm(self))"), ("collateral_free", "om_lm(self)._lending_strategy.no_collateral"),
           ("orders", "om_orders_wf(self)"), ("holds_dom", "om_holds_dom(self)"), ("holds_nonneg", "om_holds_nonneg(self)"),
-          ("holds_cover", "om_holds_cover(self)"),
+          ("holds_sum", "om_holds_sum(self)"),
           ("order", "in_orders(self, order) and st_open(order)"), ("pair", "order._pair == bar_event.bar.pair"),
           ("bar", "bar_wf(bar_event.bar)"), ("liq", "liq_wf(liquidity_strategy)"),
           # the dispatcher clock equals the bar event's time while it is handled (C12), and no loan is younger
@@ -262,10 +285,12 @@ PO_INV = [("order_wf", "order_wf(order)"),
           ("order_grid_fees", "grid(at(order._fees, oq(order)), qp_of(self, order))"),
           ("inv_ctx", "om_ctx_wf(self)"), ("inv_lm_acc", "lm_acc(om_lm(self))"), ("inv_lm_coll_dom", "lm_coll_dom(om_lm(self))"),
           ("inv_lm_coll_nonneg", "lm_coll_nonneg(om_lm(self))"), ("inv_lm_loans_wf", "lm_loans_wf(om_lm(self))"),
-          ("inv_orders_wf", "om_orders_wf(self)"), ("inv_holds_dom", "om_holds_dom(self)"), ("inv_holds_nonneg", "om_holds_nonneg(self)")]
+          ("inv_orders_wf", "om_orders_wf(self)"), ("inv_holds_dom", "om_holds_dom(self)"), ("inv_holds_nonneg", "om_holds_nonneg(self)"),
+          ("inv_holds_sum", "om_holds_sum(self)")]
 contract(OM + "_process_order", props=P + ["C04", "C11"],
          types={"liquidity_strategy": "LiquidityStrategy"},
          requires=PO_REQ,
+         axioms=[("bound", "ax_hold_bound(self, order._id)"), ("step", "ax_hold_step(self, order._id)")],
          hints=[("pending_on_grid", "grid(pending(order), bp_of(self, order)) and grid(-pending(order), bp_of(self, order))")],
          ensures=[("others_untouched", "forall(lambda k=Id: implies(k != order._id and (k in self._orders._items), unchanged(self._orders._items[k]) "
                                        "and content_unchanged(self._orders._items[k]._balance_updates, self._orders._items[k]._fees)))")] + PO_INV + [
@@ -289,3 +314,94 @@ contract(OM + "_process_order", props=P + ["C04", "C11"],
          modifies=ACC3 + ["content(self._holds_by_order)", "content(self._holds_by_order[order._id])", "all(order)", "content(order._balance_updates)",
                           "content(order._fees)", "content(order._fills)", "content(order._loan_ids)", "all(liquidity_strategy)",
                           "content(self._ctx.loan_mgr._collateral_by_loan)", "content(self._order_updates._obj._queue)", "GHOST.ledger"])
+
+# ---------------------------------------------------------------------------------------------------------------------
+# public operations: add_order, cancel_order, on_bar_event
+# ---------------------------------------------------------------------------------------------------------------------
+OM_REQ = [("ctx", "om_ctx_wf(self)"), ("lm", "lm_inv(om_lm(self))"), ("collateral_free", "om_lm(self)._lending_strategy.no_collateral"),
+          ("orders", "om_orders_wf(self)"), ("holds_dom", "om_holds_dom(self)"), ("holds_nonneg", "om_holds_nonneg(self)"),
+          ("holds_sum", "om_holds_sum(self)")]
+specfun("om_state_unchanged", ["m"],
+        "unchanged(om_acc(m)) and content_unchanged(m._orders._items, m._orders._open_items, m._holds_by_order) and unchanged(m._orders) "
+        "and lm_state_unchanged(om_lm(m)) "
+        "and forall(lambda k=Id: implies(k in om_lm(m)._loans._items, om_lm(m)._loans._items[k]._is_open == old(om_lm(m)._loans._items[k]._is_open)))")
+
+contract(OM + "add_order", props=P + ["C10"],
+         axioms=[("step", "ax_hold_step(self, order._id)")],
+         requires=OM_REQ + [
+             ("new_order", "order_wf(order) and st_open(order) and wf_config(om_cfg(self), order._pair) and order_grid(self, order) "
+                           "and forall(lambda s=Str: not (s in order._balance_updates)) and forall(lambda s=Str: not (s in order._fees)) "
+                           "and not (order._id in self._orders._items) and not (order._id in self._holds_by_order)"),
+             ("known", "implies(order._auto_borrow, known_order(order) and known_fees(self._ctx.fee_strategy))"),
+             ("clock", "implies(order._auto_borrow, clock_ok(om_lm(self)))")],
+         ensures=PO_INV[4:] + [
+             ("registered", "in_orders(self, order) and st_open(order)"),
+             # C06: the order reserves what it may spend; without borrowing it is accepted exactly when the available funds cover it
+             ("hold", "forall(lambda s=Str: at(om_acc(self).holds, s) == old(at(om_acc(self).holds, s)) + "
+                      "(at(oh_of(self, order), s) if (order._id in self._holds_by_order) else 0))"),
+             ("totals", "forall(lambda s=Str: total_of(om_acc(self), s) == old(total_of(om_acc(self), s)))"),
+             ("no_borrow_no_change", "implies(not order._auto_borrow, forall(lambda s=Str: at(om_acc(self).balances, s) == old(at(om_acc(self).balances, s)) "
+                                     "and at(om_acc(self).borrowed, s) == old(at(om_acc(self).borrowed, s))))"),
+             ("covered", "implies(order._id in self._holds_by_order, forall(lambda s=Str: at(oh_of(self, order), s) <= old(avail(om_acc(self), s)) "
+                         "or order._auto_borrow))")],
+         # C07: a rejected request leaves balances, holds, borrowed, open orders and open loans as they were
+         raises={"Error": [("account", "forall(lambda s=Str: at(om_acc(self).balances, s) == old(at(om_acc(self).balances, s)) "
+                                       "and at(om_acc(self).holds, s) == old(at(om_acc(self).holds, s)) "
+                                       "and at(om_acc(self).borrowed, s) == old(at(om_acc(self).borrowed, s)))"),
+                           ("orders", "content_unchanged(self._orders._items, self._orders._open_items, self._holds_by_order) and unchanged(self._orders)"),
+                           ("open_loans", "forall(lambda k=Id: implies((k in om_lm(self)._loans._items) and om_lm(self)._loans._items[k]._is_open, "
+                                          "old(k in om_lm(self)._loans._items) and old(om_lm(self)._loans._items[k]._is_open)))"),
+                           ("existing_loans", "old_loans_kept(self)")]},
+         modifies=ACC3 + LM_MOD + ["content(self._orders._items)", "content(self._orders._open_items)", "self._orders.pos",
+                                   "content(self._holds_by_order)", "content(order._loan_ids)", "content(self._order_updates._obj._queue)"])
+
+contract(OM + "cancel_order", props=P, types={"order_id": "Id"},
+         axioms=[("bound", "ax_hold_bound(self, order_id)"), ("step", "ax_hold_step(self, order_id)")],
+         requires=OM_REQ + [("clock", "clock_ok(om_lm(self)) and forall(lambda k=Id: implies(k in om_lm(self)._loans._items, now_of(om_lm(self)) >= om_lm(self)._loans._items[k]._created_at))")],
+         ensures=PO_INV[4:] + [
+             ("canceled", "(order_id in self._orders._items) and old(st_open(self._orders._items[order_id])) "
+                          "and self._orders._items[order_id]._state == OrderState.CANCELED"),
+             ("released", "not (order_id in self._holds_by_order)"),
+             ("ledger", "forall(lambda s=Str: total_of(om_acc(self), s) - old(total_of(om_acc(self), s)) == GHOST.ledger[s] - old(GHOST.ledger[s]))")],
+         # C07 / C05: a failed cancellation changes nothing -- in particular the order stays open
+         raises={"Error": [("unchanged", "om_state_unchanged(self)"),
+                           ("order_untouched", "implies(order_id in self._orders._items, unchanged(self._orders._items[order_id]))"),
+                           ("why", "not (order_id in self._orders._items) or not st_open(self._orders._items[order_id])")]},
+         modifies=ACC3 + ["content(self._holds_by_order)", "content(self._holds_by_order[order_id])", "self._orders._items[order_id]._state",
+                          "content(self._orders._items[order_id]._loan_ids)", "content(self._ctx.loan_mgr._collateral_by_loan)",
+                          "content(self._order_updates._obj._queue)", "GHOST.ledger"])
+
+# the liquidity strategy factory the user configured: returns a fresh, well-configured strategy (assumed)
+contract("opaque:liquidity_strategy_factory", trusted=True, returns="LiquidityStrategy",
+         ensures=[("fresh", "fresh(result)"), ("cfg", "liq_cfg(result)")],
+         notes="assumed contract of the user-supplied factory (VolumeShareImpact / InfiniteLiquidity constructors are verified)")
+
+specfun("closed_stay", ["m"], "forall(lambda k=Id: implies(old(k in m._orders._items) and not old(st_open(m._orders._items[k])), "
+                              "unchanged(m._orders._items[k]) and content_unchanged(m._orders._items[k]._balance_updates, m._orders._items[k]._fees)))")
+BAR_INV = PO_INV[4:] + [
+    ("collateral_free", "om_lm(self)._lending_strategy.no_collateral"),
+    ("ledger", "forall(lambda s=Str: total_of(om_acc(self), s) - old(total_of(om_acc(self), s)) == GHOST.ledger[s] - old(GHOST.ledger[s]))"),
+    ("registry_stable", "forall(lambda k=Id: ((k in self._orders._items) == old(k in self._orders._items)) "
+                        "and implies(k in self._orders._items, same_object(self._orders._items[k], old(self._orders._items[k]))))"),
+    ("closed_stay", "closed_stay(self)"),
+    ("monotone", "forall(lambda k=Id: implies(k in self._orders._items, filled(self._orders._items[k]) >= old(filled(self._orders._items[k]))))"),
+    ("loans_clock", "forall(lambda k=Id: implies(k in om_lm(self)._loans._items, now_of(om_lm(self)) >= om_lm(self)._loans._items[k]._created_at))"),
+]
+BAR_MOD = ACC3 + ["content(self._holds_by_order)", "every(Order)", "every(LiquidityStrategy)",
+                  "content(self._ctx.loan_mgr._collateral_by_loan)", "content(self._order_updates._obj._queue)", "GHOST.ledger",
+                  "every(ValueMap)", "self._orders._reindex_counter", "self._orders._open_items"]
+contract(OM + "on_bar_event", props=P + ["C04", "C11", "C03"],
+         requires=OM_REQ + [("bar", "bar_wf(bar_event.bar)"),
+                            ("clock", "clock_ok(om_lm(self)) and now_of(om_lm(self)) == bar_event.when "
+                                      "and forall(lambda k=Id: implies(k in om_lm(self)._loans._items, now_of(om_lm(self)) >= om_lm(self)._loans._items[k]._created_at))"),
+                            ("strategies", "forall(lambda p=Pair: implies(p in self._liquidity_strategies, liq_cfg(self._liquidity_strategies[p])))")],
+         ensures=BAR_INV + [
+             # C05/C08: every order of the pair that was open when the bar arrived has been processed: fill-or-kill orders are closed
+             ("fok_closed", "forall(lambda k=Id: implies((k in self._orders._items) and old(st_open(self._orders._items[k])) "
+                            "and self._orders._items[k]._pair == bar_event.bar.pair and fok(self._orders._items[k]), not st_open(self._orders._items[k])))")],
+         raises={"Error": []},
+         modifies=BAR_MOD,
+         loops={0: dict(invariant=BAR_INV + [
+             ("liq", "liq_wf(liquidity_strategy)"),
+             ("seen_fok", "forall(lambda o=Order: implies(o in SEEN and fok(o), not st_open(o)))")],
+             modifies=BAR_MOD)})
